@@ -363,8 +363,8 @@ def queries(tier, seed):
             ranges = [(0, 10 ** 6, "0..10^6 (longer numbers: C18)"), (-10 ** 6, -1, "negative down to -10^6")]
         else:
             ranges = [(None, None, "every Python int")]
-        for lo, hi, label in ranges:
-            tag = "" if lo is None and hi is None else f"/{'lo' if lo is not None else ''}{'hi' if hi is not None else ''}{abs(lo or hi) % 97}"
+        for ri_, (lo, hi, label) in enumerate(ranges):
+            tag = "" if lo is None and hi is None else f"/r{ri_}{'lo' if lo is not None else ''}{'hi' if hi is not None else ''}"
             qs.append(Q(f"int/{name}{tag}", "enforce_int", {"cls": name, "lo": lo, "hi": hi}, cto=t, pto=t, what=f"{name} ({ty}) from ints {label}"))
         sl = 4 if ty in ("Integer32", "Enumerated", "Time", "Unsigned32") else ((1 if tier == "quick" else 2) if name in ("MsisdnAVP", "StnSrAVP") else 2 if ty == "Address" else 3)
         # int(str) accepts every Unicode decimal digit (~650 code points, one path each): the TBCD classes get ASCII strings
